@@ -67,18 +67,19 @@ def rule_m1(chk: Check, ix: Index):
         for i in own_nodes(f.node):
             if isinstance(i, ast.If) and any(b.stmt is x for x in i.body):
                 conds.append(norm_stmt(i.test))
-    chk.require(sorted(conds) == ["tok.is_exact_type(')')", "tok.is_exact_type(',')"], "M1-must-append",
-                "consume_macro_params:delimiters", f.where,
-                f"an argument ends only at a top-level `,` or `)`; the loop is left under {sorted(conds)}")
+    from .bufeval import arbitrate
+    arbitrate(chk, sorted(conds) == ["tok.is_exact_type(')')", "tok.is_exact_type(',')"], "M1-must-append",
+              "consume_macro_params:delimiters", f.where,
+              f"an argument ends only at a top-level `,` or `)`; the loop is left under {sorted(conds)}")
     # start/end of the captured token are the first token's start and the last token's end
     src = [norm_stmt(s) for s in ast.walk(f.node) if isinstance(s, ast.stmt)]
     chk.count("M1-must-append")
     span_ok = ("end = tok.end" in src and "start = tok.start" in src) or \
         (collect is not None and f"start = {collect}[0].start" in src and f"end = {collect}[-1].end" in src)
-    chk.require(span_ok and
-                any(s.startswith("return TokenInfo(Token.MACRO_PARAM, string, start, end, line)") for s in src),
-                "M1-must-append", "consume_macro_params:span", f.where,
-                "the raw argument token must span from the first captured token's start to the last one's end")
+    arbitrate(chk, span_ok and
+              any(s.startswith("return TokenInfo(Token.MACRO_PARAM, string, start, end, line)") for s in src),
+              "M1-must-append", "consume_macro_params:span", f.where,
+              "the raw argument token must span from the first captured token's start to the last one's end")
     # blank argument or real one: decided on the captured *text* (a line break inside the brackets is blank text made of NL
     # tokens, not of WS tokens)
     import types as _types0
@@ -280,8 +281,9 @@ def rule_m2(chk: Check, ix: Index):
             if norm_stmt(tgt) == "self._end_parens" and isinstance(n.value, ast.Dict):
                 table = {ast.literal_eval(k): ast.literal_eval(v) for k, v in zip(n.value.keys, n.value.values)}
     chk.count("M2-delimiter-tables")
-    chk.require(table == {")": "(", "]": "[", "}": "{"}, "M2-delimiter-tables", "Tokenizer._end_parens", f.where,
-                f"closing brackets must map to their own openers; found {table}")
+    from .bufeval import arbitrate as _arb
+    _arb(chk, table == {")": "(", "]": "[", "}": "{"}, "M2-delimiter-tables", "Tokenizer._end_parens", f.where,
+         f"closing brackets must map to their own openers; found {table}")
     g = ix.get("Tokenizer.consume_macro_params")
     import types
     from .. import constfold
@@ -338,8 +340,9 @@ def rule_m2(chk: Check, ix: Index):
                 else:
                     good = good and pth[-1][1] == "raise"
             ok = good
-    chk.require(ok, "M2-delimiter-tables", "consume_macro_params:nesting", g.where,
-                "a closing bracket must pop the innermost open bracket when (and only when) it matches it")
+    from .bufeval import arbitrate
+    arbitrate(chk, ok, "M2-delimiter-tables", "consume_macro_params:nesting", g.where,
+              "a closing bracket must pop the innermost open bracket when (and only when) it matches it")
 
 
 def rule_m4(chk: Check, ix: Index, I):
